@@ -398,7 +398,7 @@ def selftest_verdicts(run: Run, verdicts: dict, expect: dict):
 
 def selftest_model_bugs(run: Run):
     """every seeded defect of the model must make TLC report its Catch... invariant (vacuity guard for the clauses)."""
-    res = tlc.run("LoadProtocol", "LoadProtocol_bugs.cfg", workers=2, deadlock=True, timeout=900, env=JVM_TINY, heap="512m", extra=["-continue"])
+    res = tlc.run("LoadProtocol", "LoadProtocol_bugs.cfg", workers=2, deadlock=True, timeout=900, env=JVM_MAIN, heap="1g", extra=["-continue"])
     if res.errors or not res.finished:
         print(res.tail)
         die(f"C15: TLC failed on the seeded model defects: {res.errors[:2]}")
